@@ -139,6 +139,12 @@ fn api_ids(s: SuiteId) -> Vec<(String, Option<Vec<u8>>)> {
         ("other-suite-api".into(), Some(o.api_id())),
         ("other-suite-blind".into(), Some(o.blind_api_id())),
         ("empty".into(), Some(vec![])),
+        ("binary-80".into(), Some([&s.api_id()[..], &[0x80]].concat())),
+        ("binary-81".into(), Some([&s.api_id()[..], &[0x81]].concat())),
+        ("binary-fffe".into(), Some(vec![0xff, 0xfe, 0x00, 0x41])),
+        ("binary-fffd".into(), Some(vec![0xff, 0xfd, 0x00, 0x41])),
+        ("binary-e282".into(), Some(vec![0xe2, 0x82])),
+        ("binary-e283".into(), Some(vec![0xe2, 0x83])),
     ]
 }
 
@@ -267,7 +273,7 @@ pub fn scenarios(ctx: &Ctx) -> Vec<Scenario> {
     v.push(scenario("prepare_parameters/sha", |c| prepare_params::<Sha>(c, 7000)));
     v.push(scenario("prepare_parameters/shake", |c| prepare_params::<Shake>(c, 7001)));
     let n = ctx.t(256usize, 1024usize);
-    for which in 0..7usize {
+    for which in 0..13usize {
         v.push(scenario(format!("generators/sha/{which}"), move |c| generators::<Sha>(c, n, which)));
         v.push(scenario(format!("generators/shake/{which}"), move |c| generators::<Shake>(c, n, which)));
     }
